@@ -342,12 +342,23 @@ def run_property(prop, tier="quick", seed=0, jobs=None, rebaseline=False, only=N
         "no aliasing beyond the contracts' models, no monkey-patching/subclass overrides, single thread per call",
     ]
     trusted = sorted({k for k, c in reg.contracts.items() if (c.trusted or k.startswith("model:")) and prop in props_of(c)})
+    origins = set()
+    for r in results:
+        origins |= set(r.get("assumption_origins", []))
+    # assumption scan: everything that was ever put on a path condition, by origin.  requires / assumes / loop-inv /
+    # callee-ensures come from contracts; the rest are trusted encodings of Python and the stdlib
+    lib_assumptions = sorted(o for o in origins if not o.startswith(("requires:", "assumes:", "loop-inv:", "callee-", "ghost-def:",
+                                                                     "lemma-hyp:", "loop-index-range", "type:")))
+    stubs = sorted(getattr(reg, "stub_src", {}).keys())
     cov = {
         "obligations": n_ob, "discharged": n_proved,
         "checker_cmd": f"./check {prop} --tier {tier}",
         "trusted_base": ["z3 5.1.0 (python API)", "cvc5 1.0.3 --strings-exp (takes z3's unknowns)", "CPython ast / re._parser",
                          "pyvc/lib.py, strlib.py, rx.py, stdspec.py (trusted encodings of builtins/stdlib)"] +
                         ["trusted contract: " + k for k in trusted],
+        "library_assumptions_used": lib_assumptions,
+        "contract_assumes": sorted({f"{k}: {a}" for k, c in reg.contracts.items() if prop in props_of(c) for a in c.assumes_src}),
+        "trusted_stubs_registered": stubs,
         "functions_under_contract": funcs,
         "obligation_groups": len(g),
         "by_backend": backends, "solver_s": solver_time,
